@@ -146,6 +146,7 @@ func NewJApiCore(file *fs.File, oo ...Option) *JApiCore {
 		directive.Method:           core.addJsonRpcMethod,
 		directive.Params:           core.addJsonRpcParams,
 		directive.Result:           core.addJsonRpcResult,
+		directive.Tags:             core.addTags,
 	}
 
 	for _, o := range oo {
